@@ -44,3 +44,14 @@ func init() {
 	addMutant(mutant{Name: "silent/wal-debug-logging", Silent: true,
 		Edits: []edit{{"wal.go", "	// Commit updates to meta\n", "	w.log.Debug(\"committing state\")\n	// Commit updates to meta\n"}}})
 }
+
+func init() {
+	addMutant(mutant{Name: "wal/rotation-forgets-maxindex", Fire: []string{"ORD-23"},
+		Edits: []edit{{"wal.go", "		tail.MaxIndex = newState.tail.LastIndex()\n", ""}}})
+	addMutant(mutant{Name: "wal/rotation-uses-zero-indexstart", Fire: []string{"ORD-23"},
+		Edits: []edit{{"wal.go", "		tail.IndexStart = indexStart\n		w.metrics.SetGauge", "		tail.IndexStart = 0\n		w.metrics.SetGauge"}}})
+	addMutant(mutant{Name: "wal/truncation-ignores-forceseal-offset", Fire: []string{"ORD-23"},
+		Edits: []edit{{"wal.go", "				tail.IndexStart = indexStart\n				tail.SealTime = time.Now()", "				_ = indexStart\n				tail.SealTime = time.Now()"}}})
+	addMutant(mutant{Name: "wal/truncation-returns-nil-finalizer", Fire: []string{"ORD-23"},
+		Edits: []edit{{"wal.go", "		fin := func() {\n			w.closeSegments(toClose)\n			w.deleteSegments(toDelete)\n		}\n		return fin, pc, nil", "		return nil, pc, nil"}}})
+}
